@@ -12,8 +12,9 @@ REACTIONS = {
     'r_hill': (['B'], ['A'], 'proportionalhillpositive', {'k': 'kf', 'K': 'KK', 'n': 'nn', 's1': 'A', 'd': 'B'}),
     'r_gen': (['A'], ['C'], 'general', {'rate': 'kf*A/(1+B)'}),
     'r_delay': (['B'], [], 'massaction', {'k': 0.6}, 'fixed', [], ['C'], {'delay': 0.3}),
+    'r_gdelay': (['A'], [], 'massaction', {'k': 0.7}, 'gaussian', [], ['B'], {'mean': 0.3, 'std': 0.2}),
 }
-OPS = ['species', 'r_ma', 'r_hill', 'r_gen', 'r_delay', 'param', 'rule', 'rule_dt', 'setp', 'sets', 'init', 'iface', 'iface_safe',
+OPS = ['species', 'r_ma', 'r_hill', 'r_gen', 'r_delay', 'r_gdelay', 'param', 'rule', 'rule_dt', 'setp', 'sets', 'init', 'iface', 'iface_safe',
        'sim_det', 'sim_ssa', 'sim_safe', 'sim_vol', 'sim_delay', 'sim_iface', 'seed']
 
 
@@ -185,12 +186,12 @@ def run(ctx):
     for n in range(1, L + 1):
         hists += list(itertools.product(OPS, repeat=n))
     if not ctx.quick:
-        small = ['r_hill', 'r_delay', 'rule', 'rule_dt', 'setp', 'init', 'iface', 'sim_ssa', 'sim_det', 'sim_iface']
+        small = ['r_hill', 'r_gdelay', 'rule', 'rule_dt', 'setp', 'init', 'iface', 'sim_ssa', 'sim_det', 'sim_iface']
         hists += list(itertools.product(small, repeat=5))
     pmap(check, hists, ctx, nshards=512)
     ctx.bounds = dict(history_length=L, alphabet=OPS, histories=len(hists))
     ctx.rule = ('E3: every operation sequence up to the length bound over {add species; add a mass-action / proportional-Hill (named parameters) / '
-                'general / delayed reaction; add a parameter; add a species-assigning repeated rule; add a dt counter rule (not idempotent); set a parameter; set a species value; '
+                'general / fixed-delay / Gaussian-delay reaction; add a parameter; add a species-assigning repeated rule; add a dt counter rule (not idempotent); set a parameter; set a species value; '
                 'py_initialize; build and keep a plain / safe interface; simulate through py_simulate_model in deterministic, SSA, safe, volume '
                 'and delay mode; simulate through the kept interface while it is current; seed} is applied to a real Model while a shadow '
                 'definition is maintained. After every history: seeded SSA / safe / volume / delay trajectories (2 seeds + a scripted stream), '
